@@ -648,8 +648,12 @@ def run_property(module, tier: str, seed: int, only: list[str] | None = None) ->
     for name, s in per_sub.items():
         print(f"  {name}: n={s.evaluations} nontrivial={len(s.nontrivial)} labels={dict(s.labels.most_common(8))}" + (" [wall budget hit]" if s.budget_hit else ""))
     if harness_errors:
+        shown = set()
         for subname, err in harness_errors:
-            print(f"HARNESS-ERROR in {subname}:\n{err}", file=sys.stderr)
+            if (subname, err[-300:]) in shown:
+                continue
+            shown.add((subname, err[-300:]))
+            print(f"HARNESS-ERROR in {subname}:\n{err[-2500:]}", file=sys.stderr)
         return 2
     if violations:
         for path, bucket in sorted(set(violations)):
